@@ -1364,3 +1364,22 @@ impl<T> From<Error> for RecvHeaderBlockError<T> {
         RecvHeaderBlockError::State(err)
     }
 }
+
+#[cfg(feature = "h2_verif")]
+impl Recv {
+    /// Read-only statistics for the verification harness (JSON object body).
+    pub(super) fn verif_json(&self) -> String {
+        format!(
+            "\"recv_window\":{},\"recv_available\":{},\"in_flight_data\":{},\"recv_buffer_len\":{},\
+             \"last_processed_id\":{},\"recv_max_stream_id\":{},\"refused\":{},\"recv_init_window\":{}",
+            self.flow.window_size(),
+            isize::from(self.flow.available()),
+            self.in_flight_data,
+            self.buffer.verif_len(),
+            u32::from(self.last_processed_id),
+            u32::from(self.max_stream_id),
+            self.refused.is_some(),
+            self.init_window_sz,
+        )
+    }
+}
